@@ -71,7 +71,7 @@ fn do_dec(run: &mut Run, bytes: &[u8], expect: Option<&Spec>, tag: &str) {
     };
     let nontrivial = dec.as_ref().map(|d| d.xor_mapped_address.is_some() || d.xor_peer_address.is_some()
         || d.xor_relayed_address.is_some() || d.realm.is_some() || d.nonce.is_some() || d.data.is_some()
-        || d.error_code.is_some() || d.lifetime.is_some() || d.use_candidate).unwrap_or(false);
+        || d.error_code.is_some() || d.lifetime.is_some() || d.priority.is_some() || d.use_candidate).unwrap_or(false);
     run.case("dec", &input, &out, nontrivial);
     run.count(&format!("dec_{tag}_{}", if dec.is_some() { "ok" } else { "err" }));
     if let Some(s) = expect {
